@@ -356,6 +356,7 @@ def run(ctx: Ctx):
     _estimate_rank(ctx)
     _score_term_reads_the_corrected_integrand(ctx)
     _both_parameterisations_normalised(ctx)
+    _either_representation_alias_is_metadata_only(ctx)
     _callback_results_not_mutated(ctx)
     plumbing(ctx, "S6")
     return dict(
@@ -666,6 +667,52 @@ def _both_parameterisations_normalised(ctx: Ctx):
                f"a normalised parameter, so with un-normalised {tg[0].attr} the probabilities over the one-hot support do not sum "
                f"to one and log P(z) != log P(H(z)) + log P(z | H(z))", rel, st.lineno)
     col.floor("gumbel_parameter_stores", n_, 2)
+
+
+def _either_representation_alias_is_metadata_only(ctx: Ctx):
+    """S14: an attribute that is stored together with `probs` on one branch and with `logits` on the other (`self._param = self.probs
+    = ...` / `self._param = self.logits = ...`) holds whichever parameterisation the distribution was built from. It can serve for
+    what both share - shape, device, dtype, `.new(...)` - but never as a number: `clamp_probs(self._param)` is right for a
+    probs-built distribution and reads log-probabilities as probabilities for a logits-built one (the conditional sampler then draws
+    from another distribution than the density describes). Found from the code: the aliases are the attributes chain-assigned with two
+    different partners within one class."""
+    col, pkg = ctx.col, ctx.pkg
+    META = {"shape", "device", "dtype", "new", "new_empty", "new_zeros", "new_ones", "new_full", "new_tensor", "size", "dim", "ndim", "numel",
+            "is_cuda", "requires_grad", "type"}
+    n_alias = n_reads = 0
+    bad = []
+    for mname in ("_straight_through",):
+        mod = pkg.module(mname)
+        for ci in mod.classes.values() if isinstance(mod.classes, dict) else mod.classes:
+            partners = {}
+            for fl in ci.methods.values():
+                for m in fl:
+                    for st in own_nodes(m.node):
+                        if isinstance(st, ast.Assign) and len(st.targets) >= 2:
+                            attrs = [t.attr for t in st.targets if isinstance(t, ast.Attribute) and isinstance(t.value, ast.Name)]
+                            for a in attrs:
+                                partners.setdefault(a, set()).update(x for x in attrs if x != a)
+            aliases = {a for a, ps in partners.items() if len(ps) >= 2 and a not in ("probs", "logits")}
+            if not aliases:
+                continue
+            n_alias += len(aliases)
+            for fl in ci.methods.values():
+                for m in fl:
+                    pm = parent_map(m.node)
+                    for x in own_nodes(m.node):
+                        if isinstance(x, ast.Attribute) and isinstance(x.ctx, ast.Load) and x.attr in aliases and isinstance(x.value, ast.Name):
+                            n_reads += 1
+                            par = pm.get(x)
+                            if isinstance(par, ast.Attribute) and par.attr in META:
+                                continue
+                            bad.append((ci.name, m, x, par))
+    col.floor("either_representation_aliases", n_alias, 2)
+    col.floor("either_representation_reads", n_reads, 6)
+    rel = pkg.module("_straight_through").relname
+    col.ob("G13", "S14", f"{rel}::either-representation-alias-read-for-metadata-only", not bad,
+           (f"`{u(bad[0][3] if bad[0][3] is not None else bad[0][2])[:70]}` in {bad[0][0]}.{bad[0][1].name} uses `{u(bad[0][2])}` as a value: it is the probs for a "
+            f"distribution built from probs and the (log-space) logits for one built from logits, so the result is right for one construction "
+            f"and wrong for the other") if bad else "", rel, bad[0][2].lineno if bad else 1, sample=dict(aliases=n_alias, reads=n_reads))
 
 
 def _mutants():
